@@ -125,6 +125,13 @@ def make_setter(spec):
         def setter(doc):
             table = {True: 1}
             return table[dep in doc]
+    elif kind == 'index':
+        # reads its input through a list: a missing input raises IndexError (a LookupError that is no KeyError), which
+        # is an error of this field and no reason to try again later
+        dep = spec['dep']
+
+        def setter(doc):
+            return [1][0 if dep in doc else 1]
     else:
         raise ValueError(kind)
     setter.__vname__ = 's:' + json.dumps(spec, sort_keys=True, separators=(',', ':'))
